@@ -38,6 +38,9 @@ OUTSIDE = [
 ]
 
 
+TECHNIQUE = TECHNIQUE + "; complemented by Engine M (rustc MIR -> integer SMT, z3 5.1): the tick_offset floor lemma for EVERY spacing, the builder's merge/de-duplication step with modelled std Vec operations, and the loop-level crossing order (Floyd verification of swap())"
+
+
 def run(ctx):
     # Engine M complement (props/mextra.py): at loop level exactly the searched initialised ticks are crossed, each once, in price order (Floyd verification shared with C03)
     from props import mextra, c10m
